@@ -77,7 +77,7 @@ def leaves():
           ["tag", hx("a"), ["exists"]], ["tag", hx("b"), ["exists"]], ["tag", hx("c"), ["exists"]],
           ["field", hx("f"), ["exists"]], ["field", hx("g"), ["exists"]]]
     for kind in ("match", "search"):
-        for lit in ("x", "X"):
+        for lit in ("x", "X", ""):
             for fl in ("-", "i"):
                 L.append(["tag", hx("a"), ["re", kind, hx(lit), fl]])
     L += [["meas", ["re", "match", hx("M"), "i"]], ["meas", ["re", "match", hx("M"), "-"]],
@@ -394,8 +394,9 @@ class FamilyC17:
         ex_names = sorted(ex)
         from datetime import datetime as _dt, timezone as _tz
 
-        U = U + [["pt", str(V.us_of(_dt(2021, 11, 7, 6, 0, tzinfo=_tz.utc))), hx("m"), ["tags"], ["fields"]]]
-        pobjs = pobjs + [V.build_point(U[-1], tf)]
+        U = U + [["pt", str(V.us_of(_dt(2021, 11, 7, 6, 0, tzinfo=_tz.utc))), hx("m"), ["tags"], ["fields"]],
+                 ["pt", str(V.us_of(_dt(9999, 11, 7, 5, 45, tzinfo=_tz.utc))), hx("m"), ["tags"], ["fields"]]]
+        pobjs = pobjs + [V.build_point(U[-2], tf), V.build_point(U[-1], tf)]
         ex_evals = {k: tuple(impl_eval(tf, ex[k], po) for po in pobjs) for k in ex_names}
         for a in ex_names:
             for b in ex_names:
@@ -475,6 +476,11 @@ def py_extras(tf):
     for nm, op in (("lt", O.lt), ("le", O.le), ("gt", O.gt), ("ge", O.ge), ("eq", O.eq), ("ne", O.ne)):
         E[f"TimeQuery() {nm} 01:30 New York fold=0"] = op(tf.TimeQuery(), wall.replace(fold=0))
         E[f"TimeQuery() {nm} 01:30 New York fold=1"] = op(tf.TimeQuery(), wall.replace(fold=1))
+    # ... also in the last representable year (zoneinfo extrapolates the rule)
+    far = wall.replace(year=9999, month=11, day=7)
+    for nm, op in (("lt", O.lt), ("ge", O.ge)):
+        E[f"TimeQuery() {nm} 9999-11-07 01:30 New York fold=0"] = op(tf.TimeQuery(), far.replace(fold=0))
+        E[f"TimeQuery() {nm} 9999-11-07 01:30 New York fold=1"] = op(tf.TimeQuery(), far.replace(fold=1))
     E["a.test(prefix, ('x','y'))"] = tf.TagQuery().a.test(_has_prefix, ("x", "y"))
     E["a.test(prefix, ['x','y'])"] = tf.TagQuery().a.test(_has_prefix, ["x", "y"])
     E["~a.test(prefix, ('x','y'))"] = ~tf.TagQuery().a.test(_has_prefix, ("x", "y"))
